@@ -415,6 +415,7 @@ def install(reg):
         p.assume(z3.Length(newbuf) == blen)
         p.assume(z3.Implies(n == blen, newbuf == data))
         p.ghost.setdefault("known_slices", []).append((newbuf, n, data))
+        p.ghost["last_read"] = data
         b.t = newbuf
         h.tail = tail2
         h.pos = z3.simplify(h.pos + n)
@@ -580,6 +581,42 @@ def install(reg):
         c = f(z3.Empty(BYTES), n) == z3.Empty(BYTES)
         return VBool(z3.And(a, b, c))
     SF["v1_unfold"] = s_v1_unfold
+
+    def s_last_read(p):
+        t = p.ghost.get("last_read")
+        return VBytes(t if t is not None else z3.Empty(BYTES))
+    SF["last_read"] = s_last_read
+
+    def s_leaves(p, data):
+        """BEP 52 leaf layer of a byte string: SHA-256 of each 16 KiB block (the last may be short); [] for no data"""
+        f = p.engine.uf("leaves", BYTES, PVSEQ)
+        d = p.bytes_term(data)
+        t = f(d)
+        key = ("leaves", d.get_id())
+        if key not in p.ghost:
+            p.ghost[key] = True
+            p.assume(z3.Implies(d == z3.Empty(BYTES), t == z3.Empty(PVSEQ)))
+            p.assume(z3.Length(t) * 16384 >= z3.Length(d))
+            p.assume(z3.Length(t) * 16384 < z3.Length(d) + 16384)
+        return VBox(PV.PList(t))
+    SF["leaves"] = s_leaves
+
+    def s_leaves_step(p, D, b):
+        """ground instance of the definition of leaves: appending one block b (0 < len b <= 16 KiB) to block-aligned data D
+        appends SHA-256(b)"""
+        f = p.engine.uf("leaves", BYTES, PVSEQ)
+        sha = p.engine.uf("sha256", BYTES, BYTES)
+        Dt, bt = p.bytes_term(D), p.bytes_term(b)
+        return VBool(z3.Implies(z3.And(z3.Length(Dt) % 16384 == 0, z3.Length(bt) > 0, z3.Length(bt) <= 16384),
+                                f(z3.Concat(Dt, bt)) == z3.Concat(f(Dt), z3.Unit(PV.PBytes(sha(bt))))))
+    SF["leaves_step"] = s_leaves_step
+
+    def s_hash_acc(p, hobj):
+        h = p.deref(hobj)
+        if not isinstance(h, HHash):
+            raise Unsupported("hash object expected")
+        return VBytes(h.acc)
+    SF["hash_acc"] = s_hash_acc
 
     def s_hint(p, *args):
         """evaluating the arguments instantiates the ground lemmas attached to the terms they build; the value is True"""
